@@ -229,6 +229,7 @@ func oneMain(args []string) {
 	fam := fs.String("family", "", "")
 	expErr := fs.Bool("experr", false, "")
 	dumpSnap := fs.Bool("dump", false, "print the last MSI snapshot")
+	traceLine := fs.Int("trace", -1, "with -dump: print every change of the MSI state of this L1 line base, cycle by cycle")
 	from := fs.String("from", "", "take input and configuration from a replay file")
 	srcOverride := fs.String("src", "", "with -from: replace the program text by this file")
 	fs.Parse(args)
@@ -272,9 +273,29 @@ func oneMain(args []string) {
 		var last comp.VerifMSISnap
 		var lastCycle int
 		o := runMachine(config{V: *v, EU: *eu, WU: *wu}, in.Src, in.Regs, in.Mem, runOpts{Budget: 200000, OnTick: func(m vm, site, cycle int) {
-			if sn, ok := m.(snapper); ok && site == 0 {
+			if sn, ok := m.(snapper); ok && (site == 0 || *traceLine >= 0) {
+				prev := last
 				last = sn.VerifSnapshot()
 				lastCycle = cycle
+				if *traceLine >= 0 {
+					desc := func(s *comp.VerifMSISnap) string {
+						var sb strings.Builder
+						for i, c := range s.Cores {
+							has := false
+							for _, l := range c.L1 {
+								if l.Base == int32(*traceLine) {
+									has = true
+								}
+							}
+							fmt.Fprintf(&sb, "c%d[st=%d l1=%v r=%v w=%v sn=%v rl=%v wl=%v] ", i, c.States[int32(*traceLine)], has, c.ReadBusy, c.WriteBusy, c.SnoopBusy, c.RLocks, c.Locks)
+						}
+						fmt.Fprintf(&sb, "sems=%v cmds=%v", s.Sems, s.Commands)
+						return sb.String()
+					}
+					if d := desc(&last); prev.Cores == nil || d != desc(&prev) {
+						fmt.Printf("cycle %d site %d: %s\n", cycle, site, d)
+					}
+				}
 			}
 		}})
 		fmt.Println("verdict", o.Verdict, o.Panic, "cycle", lastCycle)
